@@ -1,4 +1,5 @@
 CONSTANTS CollectN = {0, 1, 2, 100, 4095, 4096, 65535, 65536, 65537, 1048576}
   SlowMax = 5000
+  RecMaxDev = 8
 INIT Init
 NEXT Next
